@@ -37,6 +37,7 @@ pub fn menu_p1(a: usize, b: usize) -> Menu {
         two_approvers: false,
         modifies: vec![],
         quotes: vec![],
+        migrates: vec![],
     }
 }
 
@@ -63,6 +64,7 @@ pub fn menu_p0(a: usize, b: usize, prices: Vec<&'static str>) -> Menu {
         two_approvers: false,
         modifies: vec![],
         quotes: vec![],
+        migrates: vec![],
     }
 }
 
@@ -79,6 +81,7 @@ pub fn menu_p2(a: usize, b: usize) -> Menu {
         two_approvers: false,
         modifies: vec![],
         quotes: vec![],
+        migrates: vec![],
     }
 }
 
@@ -96,6 +99,7 @@ pub fn menu_large(a: usize, b: usize) -> Menu {
         two_approvers: false,
         modifies: vec![],
         quotes: vec![],
+        migrates: vec![],
     }
 }
 
@@ -112,13 +116,14 @@ pub fn menu_p3(a: usize, b: usize) -> Menu {
         two_approvers: false,
         modifies: vec![],
         quotes: vec![],
+        migrates: vec![],
     }
 }
 
 pub fn scen(name: &str, cfg: Cfg, menu: Menu, p: Vec<Act>) -> Scenario {
     let l = alphabet_l(&cfg, &menu);
     let p = probes::minus_l(p, &l);
-    Scenario { name: name.to_string(), cfg, l, p, seed: vec![], menu }
+    Scenario { name: name.to_string(), cfg, l, p, seed: vec![], menu, pre_migrate: None }
 }
 
 fn fee_account_swap(cfg: &Cfg) -> Vec<(&'static str, Modify)> {
@@ -163,6 +168,7 @@ pub fn menu_multi(a: usize, b: usize) -> Menu {
         two_approvers: false,
         modifies: vec![],
         quotes: vec!["q1", "q2"],
+        migrates: vec![],
     }
 }
 
@@ -226,6 +232,68 @@ pub fn with_legacy_seed(mut s: Scenario) -> Scenario {
     s
 }
 
+/// S2: a book carried over from contract version `version`: a legacy-id ask, an old-format
+/// (event-log) bid under a legacy un-hyphenated id with one Reject event, and an old-format bid
+/// under a canonical id with one Fill event. The exploration starts after `migrate`.
+pub fn with_old_format_seed(mut s: Scenario, version: &str) -> Scenario {
+    use crate::mig::{ev_fill, ev_reject};
+    use crate::refmodel::{parse_dec, Rat};
+    let inc = s.cfg.increment;
+    let size = 3 * inc;
+    let price = s.menu.prices[0];
+    let p = parse_dec(price).expect("seed price");
+    let amt = |n: u128| p.mul(Rat::int(n).unwrap()).and_then(|t| t.to_u128()).expect("seed total");
+    let total = amt(size);
+    let q1 = amt(inc);
+    let fee = fee_due(s.cfg.bid_fee.as_ref().map(|f| f.0.as_str()), total);
+    let held_after = if fee > 0 { Rat::new((total - q1) as i128, total as i128).unwrap().mul(Rat::int(fee).unwrap()).unwrap().round_half_away().unwrap() } else { 0 };
+    let ev_fee = if fee > 0 { Some(fee - held_after) } else { None };
+    let seller = s.cfg.roles.get("seller2").to_string();
+    let buyer2 = s.cfg.roles.get("buyer2").to_string();
+    let buyer1 = s.cfg.roles.get("buyer1").to_string();
+    let exec = s.cfg.roles.get("exec").to_string();
+    let aid = unhyphen(ID_A2);
+    let bid = unhyphen(ID_B2);
+    let feev = if fee > 0 { json!({"denom": "q1", "amount": fee.to_string()}) } else { serde_json::Value::Null };
+    let ask = json!({"id": aid, "owner": seller, "class": "Basic", "base": s.cfg.base, "quote": "q1", "price": price, "size": (2 * inc).to_string()});
+    let v2 = |id: &str, owner: &str, events: Vec<serde_json::Value>| {
+        json!({"base": {"denom": s.cfg.base, "amount": size.to_string()}, "events": events, "fee": feev, "id": id, "owner": owner, "price": price,
+            "quote": {"denom": "q1", "amount": total.to_string()}})
+    };
+    let b_legacy = v2(&bid, &buyer2, vec![ev_reject(inc, q1, ev_fee)]);
+    let b_canon = v2(ID_B3, &buyer1, vec![ev_fill(inc, q1, ev_fee.filter(|f| *f > 0), price)]);
+    s.seed.push((crate::refmodel::ask_key(&aid), ask.to_string().into_bytes()));
+    s.seed.push((crate::refmodel::bid_key(&bid), b_legacy.to_string().into_bytes()));
+    s.seed.push((crate::refmodel::bid_key(ID_B3), b_canon.to_string().into_bytes()));
+    s.l.push(Act::new(&seller, vec![], Req::CancelAsk { id: aid.clone() }));
+    s.l.push(Act::new(&exec, vec![], Req::ExpireAsk { id: aid.clone() }));
+    s.l.push(Act::new(&exec, vec![], Req::RejectAsk { id: aid.clone(), size: Some(inc) }));
+    for (id, owner) in [(bid.as_str(), buyer2.as_str()), (ID_B3, buyer1.as_str())] {
+        s.l.push(Act::new(owner, vec![], Req::CancelBid { id: id.into() }));
+        s.l.push(Act::new(&exec, vec![], Req::ExpireBid { id: id.into() }));
+        s.l.push(Act::new(&exec, vec![], Req::RejectBid { id: id.into(), size: Some(inc) }));
+    }
+    for a in 0..s.menu.ask_slots {
+        for pr in &s.menu.prices {
+            for sz in &s.menu.match_sizes {
+                s.l.push(Act::new(&exec, vec![], Req::Match { ask_id: ASK_IDS[a].into(), bid_id: ID_B3.into(), price: pr.to_string(), size: *sz }));
+            }
+        }
+    }
+    s.pre_migrate = Some((version.to_string(), json!({})));
+    s.name = format!("{}+carried-over-from-{version}", s.name);
+    s
+}
+
+/// migrations that may happen in the middle of a history (the stored version is already current)
+pub fn mid_history_migrations() -> Vec<(&'static str, serde_json::Value)> {
+    vec![
+        ("clear the bid fee", json!({"bid_fee_rate": "", "bid_fee_account": ""})),
+        ("clear the ask fee", json!({"ask_fee_rate": "", "ask_fee_account": ""})),
+        ("no approvers", json!({"approvers": []})),
+    ]
+}
+
 fn ledger_scenarios(tier: Tier, extra_probes: &dyn Fn(&Cfg, &Menu) -> Vec<Act>) -> Vec<Scenario> {
     let mut v = vec![];
     let mk = |name: &str, cfg: Cfg, mut menu: Menu, v: &mut Vec<Scenario>| {
@@ -243,6 +311,22 @@ fn ledger_scenarios(tier: Tier, extra_probes: &dyn Fn(&Cfg, &Menu) -> Vec<Act>) 
     mk("B11/p14/large-amounts", Cfg::new(14, 300_000_000_000_000, ("0.25", "0.25"), "R0"), menu_large(1, 1), &mut v);
     mk("B11/multi-denom/nrnur", with_markers(multi(Cfg::new(0, 2, ("0.25", "0.25"), "R0")), "nrnur"), menu_multi(1, 1), &mut v);
     mk("B11/base-also-convertible", overlap(Cfg::new(0, 2, ("0.25", "0.25"), "R0")), menu_p1(1, 1), &mut v);
+    {
+        // upgrades in the middle of a history, and a book carried over from an old version
+        let cfg = Cfg::new(0, 2, ("0.25", "0.25"), "R0");
+        let menu = Menu { migrates: mid_history_migrations(), ..menu_p1(1, 1) };
+        let mut p = extra_probes(&cfg, &menu);
+        p.extend(probes::match_respell(&alphabet_l(&cfg, &menu)));
+        v.push(scen("B11/P1/F1/R0/mid-history-migrations", cfg, menu, p));
+        let cfg = with_markers(Cfg::new(0, 1, ("0.1", "0.1"), "R0"), "rrr");
+        let menu = Menu { migrates: mid_history_migrations(), ..menu_p0(1, 1, vec!["2", "5"]) };
+        let p = extra_probes(&cfg, &menu);
+        v.push(scen("B11/P0/F2/R0/rrr/mid-history-migrations", cfg, menu, p));
+        let cfg = Cfg::new(0, 2, ("0.25", "0.25"), "R0");
+        let menu = menu_p1(1, 1);
+        let p = extra_probes(&cfg, &menu);
+        v.push(with_old_format_seed(scen("B11/P1/F1/R0", cfg, menu, p), "0.18.2"));
+    }
     if tier == Tier::Thorough {
         mk("B21/multi-denom", multi(Cfg::new(0, 2, ("0.25", "0.25"), "R0")), menu_multi(2, 1), &mut v);
         mk("B12/multi-denom/rrrnn", with_markers(multi(Cfg::new(0, 2, ("0.25", "0.25"), "R1")), "rrrnn"), menu_multi(1, 2), &mut v);
@@ -258,6 +342,26 @@ fn ledger_scenarios(tier: Tier, extra_probes: &dyn Fn(&Cfg, &Menu) -> Vec<Act>) 
         let s = scen("B12/P1/F1/R0", Cfg::new(0, 2, ("0.25", "0.25"), "R0"), menu_p1(1, 2), vec![]);
         v.push(with_legacy_seed(s));
     }
+    v
+}
+
+/// the upgrade family: migrations in the middle of a history, and a book carried over from 0.18.2
+fn upgrade_family(probes_of: &dyn Fn(&Cfg, &Menu) -> Vec<Act>, restricted: bool) -> Vec<Scenario> {
+    let mut v = vec![];
+    let cfg = Cfg::new(0, 2, ("0.25", "0.25"), "R0");
+    let menu = Menu { migrates: mid_history_migrations(), ..menu_p1(1, 1) };
+    let p = probes_of(&cfg, &menu);
+    v.push(scen("B11/P1/F1/R0/mid-history-migrations", cfg, menu, p));
+    if restricted {
+        let cfg = with_markers(Cfg::new(0, 1, ("0.1", "0.1"), "R0"), "rrr");
+        let menu = Menu { migrates: mid_history_migrations(), ..menu_p0(1, 1, vec!["2", "5"]) };
+        let p = probes_of(&cfg, &menu);
+        v.push(scen("B11/P0/F2/R0/rrr/mid-history-migrations", cfg, menu, p));
+    }
+    let cfg = Cfg::new(0, 2, ("0.25", "0.25"), "R0");
+    let menu = menu_p1(1, 1);
+    let p = probes_of(&cfg, &menu);
+    v.push(with_old_format_seed(scen("B11/P1/F1/R0", cfg, menu, p), "0.18.2"));
     v
 }
 
@@ -294,6 +398,15 @@ pub fn plan(prop: &str, tier: Tier) -> Plan {
             mk("B11/P0/F3/R0", Cfg::new(0, 1, ("0.5", "0.5"), "R0"), menu_p0(1, 1, vec!["1", "2"]), &mut v);
             mk("B11/P0/F3/R0/rrr", with_markers(Cfg::new(0, 1, ("0.5", "0.5"), "R0"), "rrr"), menu_p0(1, 1, vec!["1", "2"]), &mut v);
             mk("B11/multi-denom", multi(Cfg::new(0, 2, ("0.25", "0.25"), "R0")), menu_multi(1, 1), &mut v);
+            {
+                // bids whose fill fee is zero must still match after the bid fee was switched off by an upgrade
+                let cfg = Cfg::new(0, 1, ("0.1", "0.1"), "R0");
+                let menu = Menu { migrates: mid_history_migrations(), ..menu_p0(1, 1, vec!["2", "5"]) };
+                let mut p = probes::match_product(&cfg, &menu, false);
+                p.extend(probes::fee_creates(&cfg, &menu));
+                v.push(scen("B11/P0/F2/R0/mid-history-migrations", cfg, menu, p));
+                v.extend(upgrade_family(&|c, m| probes::match_product(c, m, false), false).into_iter().skip(1));
+            }
             if th {
                 mk("B21/multi-denom", multi(Cfg::new(0, 2, ("0.25", "0.25"), "R0")), menu_multi(2, 1), &mut v);
                 mk("B12/P2/F1/R0", Cfg::new(1, 10, ("0.25", "0.25"), "R0"), menu_p2(1, 2), &mut v);
@@ -325,7 +438,7 @@ pub fn plan(prop: &str, tier: Tier) -> Plan {
                 let extra: Vec<Act> = l.iter().filter(|a| a.sender == ex && !matches!(a.req, Req::CreateAsk { .. } | Req::CreateBid { .. } | Req::CancelAsk { .. } | Req::CancelBid { .. } | Req::ApproveAsk { .. })).map(|a| a.with_sender(r.get("exec2"))).collect();
                 l.extend(extra);
                 let p = probes::minus_l(probes::senders(&cfg, &l), &l);
-                v.push(Scenario { name: format!("B11/P1/F1/{rv}/roles"), cfg, l, p, seed: vec![], menu });
+                v.push(Scenario { name: format!("B11/P1/F1/{rv}/roles"), cfg, l, p, seed: vec![], menu, pre_migrate: None });
             }
             {
                 // nobody is a configured approver: nobody can approve
@@ -336,19 +449,28 @@ pub fn plan(prop: &str, tier: Tier) -> Plan {
                 menu.two_approvers = true;
                 let l = alphabet_l(&cfg, &menu);
                 let p = probes::minus_l(probes::senders(&cfg, &l), &l);
-                v.push(Scenario { name: "B11/P1/F1/R0/no-approvers".into(), cfg, l, p, seed: vec![], menu });
+                v.push(Scenario { name: "B11/P1/F1/R0/no-approvers".into(), cfg, l, p, seed: vec![], menu, pre_migrate: None });
+                // roles after an upgrade in the middle of a history
+                let cfg = Cfg::new(0, 2, ("0.25", "0.25"), "R0");
+                let mut menu = menu_p1(1, 1);
+                menu.prices = vec!["2"];
+                menu.two_approvers = true;
+                menu.migrates = mid_history_migrations();
+                let l = alphabet_l(&cfg, &menu);
+                let p = probes::minus_l(probes::senders(&cfg, &l), &l);
+                v.push(Scenario { name: "B11/P1/F1/R0/mid-history-migrations".into(), cfg, l, p, seed: vec![], menu, pre_migrate: None });
             }
             if th {
                 let cfg = Cfg::new(0, 2, ("0.25", "0.25"), "R0");
                 let menu = menu_p1(2, 1);
                 let l = alphabet_l(&cfg, &menu);
                 let p = probes::minus_l(probes::senders(&cfg, &l), &l);
-                v.push(Scenario { name: "B21/P1/F1/R0/senders".into(), cfg, l, p, seed: vec![], menu });
+                v.push(Scenario { name: "B21/P1/F1/R0/senders".into(), cfg, l, p, seed: vec![], menu, pre_migrate: None });
                 let cfg = Cfg::new(0, 2, ("0.25", "0.25"), "R0");
                 let menu = menu_p1(1, 2);
                 let l = alphabet_l(&cfg, &menu);
                 let p = probes::minus_l(probes::senders(&cfg, &l), &l);
-                v.push(Scenario { name: "B12/P1/F1/R0/senders".into(), cfg, l, p, seed: vec![], menu });
+                v.push(Scenario { name: "B12/P1/F1/R0/senders".into(), cfg, l, p, seed: vec![], menu, pre_migrate: None });
             }
             Plan { scenarios: v, hooks: vec![] }
         }
@@ -366,6 +488,7 @@ pub fn plan(prop: &str, tier: Tier) -> Plan {
             mk("B11/P3/F2/R0", Cfg::new(2, 100, ("0.1", "0.1"), "R0"), menu_p3(1, 1), &mut v);
             mk("B11/multi-denom/nrnur", with_markers(multi(Cfg::new(0, 2, ("0.25", "0.25"), "R0")), "nrnur"), menu_multi(1, 1), &mut v);
             v.push(with_legacy_seed(scen("B11/P1/F1/R0", Cfg::new(0, 2, ("0.25", "0.25"), "R0"), menu_p1(1, 1), vec![])));
+            v.extend(upgrade_family(&no_probes, true));
             if th {
                 mk("B22/P1/F1/R0", Cfg::new(0, 2, ("0.25", "0.25"), "R0"), menu_p1(2, 2), &mut v);
                 mk("B12/P2/F1/R0", Cfg::new(1, 10, ("0.25", "0.25"), "R0"), menu_p2(1, 2), &mut v);
@@ -396,6 +519,8 @@ pub fn plan(prop: &str, tier: Tier) -> Plan {
             mk("B11/P1/F1/rrr", with_markers(Cfg::new(0, 2, ("0.25", "0.25"), "R0"), "rrr"), small(menu_p1(1, 1)), &mut v);
             mk("B11/base-also-convertible", overlap(Cfg::new(0, 2, ("0.25", "0.25"), "R0")), small(menu_p1(1, 1)), &mut v);
             mk("B11/P1/F1/attrs1", with_attrs(Cfg::new(0, 2, ("0.25", "0.25"), "R0"), &["kyc"], &["kyc"]), small(menu_p1(1, 1)), &mut v);
+            mk("B11/P1/F1/attrs-ask-only", with_attrs(Cfg::new(0, 2, ("0.25", "0.25"), "R0"), &["kyc"], &[]), small(menu_p1(1, 1)), &mut v);
+            mk("B11/P1/F1/attrs-bid-only", with_attrs(Cfg::new(0, 2, ("0.25", "0.25"), "R0"), &[], &["kyc"]), small(menu_p1(1, 1)), &mut v);
             mk("B11/P1/F1/attrs2", with_attrs(Cfg::new(0, 2, ("0.25", "0.25"), "R0"), &["kyc", "acc"], &["acc", "kyc"]), small(menu_p1(1, 1)), &mut v);
             if th {
                 mk("B12/P1/F1", Cfg::new(0, 2, ("0.25", "0.25"), "R0"), small(menu_p1(1, 2)), &mut v);
@@ -420,6 +545,7 @@ pub fn plan(prop: &str, tier: Tier) -> Plan {
                 let mut cfg = Cfg::new(0, 2, ("0.25", "0.25"), "R0");
                 cfg.approvers = vec![];
                 mk("B11/P1/F1/R0/no-approvers", cfg, menu_p1(1, 1), &mut v);
+                mk("B11/P1/F1/R0/mid-history-migrations", Cfg::new(0, 2, ("0.25", "0.25"), "R0"), Menu { migrates: mid_history_migrations(), ..menu_p1(1, 1) }, &mut v);
             }
             if th {
                 mk("B21/P1/F1/R1", Cfg::new(0, 2, ("0.25", "0.25"), "R1"), menu_p1(2, 1), &mut v);
@@ -444,6 +570,7 @@ pub fn plan(prop: &str, tier: Tier) -> Plan {
             mk("B11/P0/rate1", Cfg::new(0, 1, ("0.9", "1"), "R0"), plain(menu_p0(1, 1, vec!["1", "2"])), &mut v);
             mk("B11/P2/F1", Cfg::new(1, 10, ("0.25", "0.25"), "R0"), plain(menu_p2(1, 1)), &mut v);
             mk("B11/p14/large-amounts", Cfg::new(14, 300_000_000_000_000, ("0.25", "0.25"), "R0"), plain(menu_large(1, 1)), &mut v);
+            v.extend(upgrade_family(&|c, m| probes::fee_creates(c, m), false));
             if th {
                 mk("B12/P1big/F1", Cfg::new(0, 2, ("0.25", "0.25"), "R0"), plain(menu_p1_big(1, 2)), &mut v);
                 mk("B12/P1/third", Cfg::new(0, 2, ("0.333", "0.333"), "R0"), plain(Menu { sizes: vec![2, 4, 6], match_sizes: vec![1, 2, 3, 4, 5, 6], ..menu_p1(1, 2) }), &mut v);
@@ -474,6 +601,12 @@ pub fn plan(prop: &str, tier: Tier) -> Plan {
             for spec in ["nrnur", "rnrnu", "urunr", "rurrn"] {
                 let cfg = with_markers(multi(Cfg::new(0, 2, ("0.25", "0.25"), "R0")), spec);
                 v.push(scen(&format!("B11/multi-denom/{spec}"), cfg, menu_multi(1, 1), vec![]));
+            }
+            v.extend(upgrade_family(&no_probes, true));
+            for spec in ["nnr", "rnn", "nrn"] {
+                let cfg = with_markers(Cfg::new(0, 1, ("0.1", "0.1"), "R0"), spec);
+                let menu = Menu { migrates: mid_history_migrations(), ..menu_p0(1, 1, vec!["2", "5"]) };
+                v.push(scen(&format!("B11/P0/F2/R0/{spec}/mid-history-migrations"), cfg, menu, vec![]));
             }
             // fee consumes the whole proceeds, under restricted / unrestricted quote
             for spec in ["nnn", "nnr", "rrr", "run"] {
@@ -521,6 +654,7 @@ pub fn plan(prop: &str, tier: Tier) -> Plan {
             v.push(scen("B21/P1/F1/R0", Cfg::new(0, 2, ("0.25", "0.25"), "R0"), menu_p1(2, 1), vec![]));
             v.push(scen("B12/P1/F1/R0", Cfg::new(0, 2, ("0.25", "0.25"), "R0"), menu_p1(1, 2), vec![]));
             v.push(with_legacy_seed(scen("B11/P1/F1/R0", Cfg::new(0, 2, ("0.25", "0.25"), "R0"), menu_p1(1, 1), vec![])));
+            v.extend(upgrade_family(&no_probes, false));
             if th {
                 v.push(scen("B22/P1/F1/R0", Cfg::new(0, 2, ("0.25", "0.25"), "R0"), menu_p1(2, 2), vec![]));
                 v.push(with_legacy_seed(scen("B12/P2/F1/R0", Cfg::new(1, 10, ("0.25", "0.25"), "R0"), menu_p2(1, 2), vec![])));
